@@ -78,6 +78,19 @@ fn emit_io_probe(sh: &mut Shards, ev: &str, extra: &str, w: usize, h: usize, inp
 }
 fn big_unit(rng: &mut Rng, lo: f32, hi: f32) -> (usize, usize, Vec<[f32; 3]>, Vec<usize>) {
     let (w, h) = crate::util::big(rng.below(4) as usize & 2);
+    big_unit_wh(rng, lo, hi, w, h)
+}
+/// which huge shape a family uses in this run (quick: one, rotating with the seed and the family; thorough: all four)
+fn huge_shapes(o: &Opts, fam: usize) -> Vec<(usize, usize)> {
+    if o.thorough {
+        (0..4).map(crate::util::huge).collect()
+    } else if o.mini {
+        Vec::new()
+    } else {
+        vec![crate::util::huge(o.seed as usize + fam)]
+    }
+}
+fn big_unit_wh(rng: &mut Rng, lo: f32, hi: f32, w: usize, h: usize) -> (usize, usize, Vec<[f32; 3]>, Vec<usize>) {
     let n = w * h;
     // interesting pixels at both ends of the frame: corners, greys, near-black ladders, single channels
     let mut head: Vec<[f32; 3]> = Vec::new();
@@ -195,6 +208,10 @@ pub fn gen_c04(sh: &mut Shards, o: &Opts) -> serde_json::Value {
     }
     let (w, h, big, idx) = big_unit(&mut rng, 0.0, 4.0);
     emit_io_probe(sh, "xyb", "", w, h, &big, &[("out", xyb_of(&big, w, h))], &idx, false);
+    for (hw, hh) in huge_shapes(o, 0) {
+        let (w, h, big, idx) = big_unit_wh(&mut rng, 0.0, 4.0, hw, hh);
+        emit_io_probe(sh, "xyb", "", w, h, &big, &[("out", xyb_of(&big, w, h))], &idx, false);
+    }
     let echo = echo_image(&lattice(4, 0.0, 1.0), |p| xyb_of(p, 1, 1));
     for (at, w, h) in cut_images(echo.len(), 5) {
         let img = &echo[at..at + w * h];
@@ -231,6 +248,12 @@ pub fn gen_c05(sh: &mut Shards, o: &Opts) -> serde_json::Value {
     let mid = xyb_of(&big, w, h);
     let back = mid.clone().and_then(|m| lin_of_xyb(&m, w, h));
     emit_io_probe(sh, "xybrt", "", w, h, &big, &[("mid", mid), ("back", back)], &idx, false);
+    for (hw, hh) in huge_shapes(o, 1) {
+        let (w, h, big, idx) = big_unit_wh(&mut rng, 0.0, 1.0, hw, hh);
+        let mid = xyb_of(&big, w, h);
+        let back = mid.clone().and_then(|m| lin_of_xyb(&m, w, h));
+        emit_io_probe(sh, "xybrt", "", w, h, &big, &[("mid", mid), ("back", back)], &idx, false);
+    }
     // echo: p followed by (xyb(p) clamped into the unit cube) and repeats
     let echo: Vec<[f32; 3]> = echo_image(&lattice(4, 0.0, 1.0), |p| xyb_of(p, 1, 1)).into_iter().map(|p| [p[0].clamp(0.0, 1.0), p[1].clamp(0.0, 1.0), p[2].clamp(0.0, 1.0)]).collect();
     for (at, w, h) in cut_images(echo.len(), 6) {
@@ -316,6 +339,19 @@ pub fn gen_c06(sh: &mut Shards, o: &Opts) -> serde_json::Value {
             let a = prim_from709(c, img, w, h);
             let back = a.clone().and_then(|m| prim_to709(c, &m, w, h));
             emit_io(sh, "prim", &x, w, h, img, &[("out", a), ("back", back)], true);
+        }
+    }
+    for (k, &c) in [9u8, 4, 10, 12, 22].iter().enumerate() {
+        for (hw, hh) in huge_shapes(o, 2 + k).into_iter().take(if k < 2 || o.thorough { 4 } else { 0 }) {
+            let mut rng = Rng::new(o.seed, 0x0606_b170 + u64::from(c));
+            let (w, h, big, idx) = big_unit_wh(&mut rng, -0.5, 2.0, hw, hh);
+            let a = prim_to709(c, &big, w, h);
+            let back = a.clone().and_then(|m| prim_from709(c, &m, w, h));
+            emit_io_probe(sh, "prim", &format!("\"cp\":{c},\"dir\":\"to709\","), w, h, &big, &[("out", a), ("back", back)], &idx, true);
+            let a = prim_from709(c, &big, w, h);
+            let back = a.clone().and_then(|m| prim_to709(c, &m, w, h));
+            emit_io_probe(sh, "prim", &format!("\"cp\":{c},\"dir\":\"from709\","), w, h, &big, &[("out", a), ("back", back)], &idx, true);
+            n += 2 * (w * h) as u64;
         }
     }
     for &c in &[9u8, 4, 10] {
@@ -422,6 +458,12 @@ pub fn gen_c17(sh: &mut Shards, o: &Opts) -> serde_json::Value {
         let mid = hsl_of(img, w, h);
         let back = mid.clone().and_then(|m| lin_of_hsl(&m, w, h));
         emit_io(sh, "hsl", "", w, h, img, &[("out", mid), ("back", back)], false);
+    }
+    for (hw, hh) in huge_shapes(o, 3) {
+        let (w, h, big, idx) = big_unit_wh(&mut rng, 0.0, 1.0, hw, hh);
+        let mid = hsl_of(&big, w, h);
+        let back = mid.clone().and_then(|m| lin_of_hsl(&m, w, h));
+        emit_io_probe(sh, "hsl", "", w, h, &big, &[("out", mid), ("back", back)], &idx, false);
     }
     {
         let (w, h, big, idx) = big_unit(&mut rng, 0.0, 1.0);
